@@ -66,6 +66,16 @@ def misuse(case):
                        ('Jacobian of f with one complex component', lambda: nd.Jacobian(lambda x: np.array([x[0] * x[1], 1j * x[0]]), method='complex')(np.array([1.0, 2.0]))),
                        ('directionaldiff sizes', lambda: nd.directionaldiff(lambda x: np.sum(x ** 2), np.ones(2), np.ones(3))),
                        ('too few steps', lambda: fd.LogRule(n=2, method='forward', order=4)._apply(np.ones((2, 1)), np.ones((2, 1)), 2.0)),
+                       ('too few steps, several columns', lambda: fd.LogRule(n=2, method='forward', order=4)._apply(np.ones((2, 3)), np.ones((2, 3)), 2.0)),
+                       ('one step too few', lambda: fd.LogRule(n=1, method='forward', order=2)._apply(np.ones((1, 1)), np.ones((1, 1)), 2.0)),
+                       ('one step too few through Derivative (user generator, check_num_steps=False), array x',
+                        lambda: nd.Derivative(np.exp, step=nd.MinStepGenerator(base_step=0.01, step_ratio=2, num_steps=1, check_num_steps=False), method='central', order=4)(np.array([1.0, 2.0]))),
+                       ('one step too few through Derivative (user generator, check_num_steps=False), scalar x',
+                        lambda: nd.Derivative(np.exp, step=nd.MinStepGenerator(base_step=0.01, step_ratio=2, num_steps=1, check_num_steps=False), method='forward', order=2)(1.0)),
+                       ('Residue order=0', lambda: Residue(np.sin, order=0, pole_order=1)),
+                       ('Residue order=0.0', lambda: Residue(np.sin, order=0.0, pole_order=2)),
+                       ('Residue order=1, pole_order=1', lambda: Residue(np.sin, order=1, pole_order=1)),
+                       ('Residue negative order', lambda: Residue(np.sin, order=-1, pole_order=1)),
                        ('non-vectorised fun', lambda: nd.Derivative(lambda x: np.array([1.0, 2.0, 3.0]))(np.array([1.0, 2.0])))]:
             try:
                 fn()
